@@ -227,6 +227,11 @@ func verifIDs(b []byte, ids []uint64) []byte {
 // harness pins) to b.
 func (rn *RawNode) VerifFingerprint(b []byte) []byte {
 	s := rn.VerifState()
+	return VerifFingerprintState(b, &s)
+}
+
+// VerifFingerprintState is VerifFingerprint for an already taken dump.
+func VerifFingerprintState(b []byte, s *VerifState) []byte {
 	b = verifU(b, s.ID, s.Term, s.Vote, s.Lead, s.LeadTransferee, s.PendingConfIndex,
 		uint64(s.State), s.UncommittedSize, uint64(s.ElectionElapsed), uint64(s.HeartbeatElapsed),
 		s.Committed, s.Applying, s.Applied, s.ApplyingEntsSize, s.FirstIndex, s.LastIndex,
